@@ -165,6 +165,98 @@ def run_driver(exe, execs, wd, tag):
     return out
 
 
+def scan_jobs(tier, seed):
+    """W lines (see harness/drv_filter.c) of the wide scan with selection, with a cost estimate each.
+       dense : IMPULSE reconstruction x every sampling kernel, EVERY scale 1..131072 (0 < s <= 2.0), bits 0..5 -- the
+               region where a phase has one to three taps and rounded taps can cancel
+       sweep : the 49 pairs without IMPULSE over the same scale range with step STEP (thorough: 1), the offset
+               rotating with the seed; X x IMPULSE (independent of the scale) once per depth 0..8;
+               every pair on a log-spaced ladder above 2.0 and at depths 6..8"""
+    quick = tier == "quick"
+    jobs = []
+
+    def add(rk, sk, lo, hi, step, off, b, ctl):
+        n = max(0, (hi - lo - off) // step + 1)
+        w = KW[rk] + (lo + hi) / 2 / 65536.0 * KW[sk] + 1
+        per = (1 << b) * w * (1.0 if rk == 0 or sk == 0 else 14.0)
+        jobs.append(("W %d %d %d %d %d %d %d %d %d %d %d %d" % (rk, rk, sk, sk, lo, hi, step, off, b, b, ctl, seed % ctl),
+                     n * (per + 8), n))
+
+    for sk in range(8):
+        for b in range(6):
+            for half in range(2):            # two halves per (kernel, depth) for balance
+                add(0, sk, 1 + half * 65536, 65536 + half * 65536, 1, 0, b, 5000)
+    step = 37 if quick else 1
+    for rk in range(1, 8):
+        for b in range(9):
+            add(rk, 0, 65536, 65536, 1, 0, b, 1)
+        for sk in range(1, 8):
+            for b in range(6):
+                off = (seed * 7 + rk * 8 + sk + b) % step
+                if quick:
+                    add(rk, sk, 1, 131072, step, off, b, 500)
+                else:
+                    for q in range(4):
+                        add(rk, sk, 1 + q * 32768, 32768 + q * 32768, 1, 0, b, 5000)
+    # log-spaced ladder above 2.0 (up to 64.0) and deep subsampling, all 64 pairs
+    nl = 12 if quick else 60
+    for i in range(nl):
+        sc = int(131072 * (32.0 ** ((i + (seed % 7) / 7.0) / nl))) + 1
+        for rk in range(8):
+            for sk in range(8):
+                for b in ((0, 2) if quick else (0, 1, 2, 3)):
+                    add(rk, sk, sc, sc, 1, 0, b, 50)
+    for rk in range(8):
+        for sk in range(8):
+            for b in (6, 7, 8):
+                lo = 1 + (seed * 131 + rk * 17 + sk * 5 + b) % 1024
+                add(rk, sk, lo, 131072, 4099 if quick else 257, 0, b, 20)
+    return jobs
+
+
+def scan_stage(chk, exe, wd, args, nproc):
+    """wide scan with selection: returns the trace files (selected + control tables only)"""
+    import time
+    jobs = scan_jobs(args.tier, args.seed)
+    buckets = [[] for _ in range(nproc)]
+    loads = [0.0] * nproc
+    for line, cost, n in sorted(jobs, key=lambda j: -j[1]):
+        i = loads.index(min(loads))
+        buckets[i].append(line)
+        loads[i] += cost
+    t0 = time.time()
+
+    def one(ib):
+        i, lines = ib
+        sp = os.path.join(wd, "scan%d.script" % i)
+        tp = os.path.join(wd, "scan%d.ndjson" % i)
+        open(sp, "w").write("\n".join(lines) + "\n")
+        vf.run_driver([exe, sp, tp], tp, env=ASAN_ENV, timeout=3000)
+        os.unlink(sp)
+        # the crash handler / vf.run_driver may leave blank lines
+        lines = [x for x in open(tp) if x.strip()]
+        open(tp, "w").writelines(lines)
+        return tp
+
+    from concurrent.futures import ThreadPoolExecutor
+    with ThreadPoolExecutor(max_workers=nproc) as ex:
+        traces = list(ex.map(one, [(i, b) for i, b in enumerate(buckets) if b]))
+    tot = {"scanned": 0, "selected": 0, "control": 0}
+    for t in traces:
+        for line in open(t):
+            if line.startswith('{"e":"ScanDone"'):
+                ev = json.loads(line)
+                for k in tot:
+                    tot[k] += ev[k]
+    chk.extra["scan_tables_created"] = tot["scanned"]
+    chk.extra["scan_tables_selected_by_prescreen"] = tot["selected"]
+    chk.extra["scan_tables_control_sample"] = tot["control"]
+    chk.extra["scan_tables_not_judged"] = tot["scanned"] - tot["selected"] - tot["control"]
+    chk.extra["scan_wall_s"] = round(time.time() - t0, 1)
+    chk.extra["scan_planned"] = sum(j[2] for j in jobs)
+    return traces
+
+
 def validate_all(chk, module, files, cfg, parallel, rounds=3):
     """vf.validate_batches reports the first rejected execution of a file; continue behind it (bounded)."""
     pending = list(files)
@@ -304,6 +396,8 @@ def run(prop, args):
     with ThreadPoolExecutor(max_workers=nb) as ex:
         traces = list(ex.map(lambda ib: run_driver(exe, ib[1], wd, "b%d" % ib[0]),
                              [(i, b) for i, b in enumerate(batches) if b]))
+    # 3b. wide scan with selection (only selected + control tables reach TLC)
+    traces += scan_stage(chk, exe, wd, args, nb)
     for t in traces:
         count_events(chk, t)
 
